@@ -40,7 +40,8 @@ RULE = (
     "input of i; input-less nodes get a private input). Oracle: own boolean Floyd-Warshall closure. "
     "Composition part: Hypothesis draws n=2..6 graphs, sizes, integer coefficients, q in {0.1,0.2,0.3}, inner "
     "MDA, parallel stages, listing order, optional inputs and whether cycle groups / self-coupled nodes are handed to MDAChain "
-    "wrapped in one MDOChain node; reference = numpy.linalg.solve of (I-B) y = A ext + c. "
+    "wrapped in one MDOChain node, and whether the setting sub_coupling_structures is given (one CouplingStructure per inner "
+    "MDA in sequence order); reference = numpy.linalg.solve of (I-B) y = A ext + c. "
     "Non-trivial = (graph, listing order) with an SCC of size >=2 and >=2 stages (composition: additionally "
     "executed through MDAChain); distinct = structural hash of (n, edges, options, order)."
 )
@@ -297,7 +298,7 @@ def random_graphs(draw):
 @st.composite
 def systems(draw):
     n = draw(st.integers(2, 6))
-    kind = draw(st.sampled_from(["any", "any", "acyclic", "blocks"]))
+    kind = draw(st.sampled_from(["any", "any", "acyclic", "blocks", "blocks"]))
     edges = []
     if kind == "acyclic":
         topo = draw(st.permutations(list(range(n))))
@@ -341,6 +342,8 @@ def systems(draw):
         "init_defaults": draw(st.booleans()),
         # inputs that are optional (non-required, with a default value) in the consumer's grammar
         "opt": draw(st.one_of(st.just([]), st.lists(st.integers(0, 1), min_size=1, max_size=7))),
+        # give MDAChain the non-default setting sub_coupling_structures: one CouplingStructure per inner MDA, in sequence order
+        "sub_cs": draw(st.booleans()),
         # cycle groups / self-coupled nodes (index modulo their number) handed to MDAChain as ONE MDOChain node
         "wrap": draw(st.one_of(st.just([]), st.lists(st.integers(0, 3), min_size=1, max_size=2, unique=True))),
     }
@@ -393,11 +396,36 @@ def case_composition(p, ctx):
                 new_listed.append(discs[i])
         listed = new_listed
     inner_settings = {"n_processes": 1} if p["inner"] == "MDAJacobi" else {}
+    extra = {}
+    mda_levels = []
+    if p.get("sub_cs"):
+        # "The coupling structures to be used by the inner MDAs": one per group needing an MDA (several members, or a
+        # self-coupled discipline that is not itself an MDA), in the order of the execution sequence, which a user
+        # reads from CouplingStructure(disciplines).sequence
+        from gemseo.mda.base_mda import BaseMDA
+
+        cs0 = CouplingStructure(listed)
+        subs = []
+        for level, stage in enumerate(cs0.sequence):
+            for group in stage:
+                if len(group) > 1 or (cs0.is_self_coupled(group[0]) and not isinstance(group[0], BaseMDA)):
+                    ids = {id(d) for d in group}
+                    subs.append(CouplingStructure([d for d in listed if id(d) in ids]))
+                    mda_levels.append(level)
+        if subs:
+            extra["sub_coupling_structures"] = subs
+        expected_groups = [[id(d) for d in group] for stage in cs0.sequence for group in stage]
     mda = MDAChain(
         listed, inner_mda_name=p["inner"], tolerance=1e-12, max_mda_iter=200, inner_mda_settings=inner_settings,
         mdachain_parallelize_tasks=bool(p["parallel"]), mdachain_parallel_settings={"n_processes": 1} if p["parallel"] else {},
-        initialize_defaults=bool(p["init_defaults"]),
+        initialize_defaults=bool(p["init_defaults"]), **extra,
     )
+    if extra:
+        got_groups = [[id(d) for d in group] for stage in mda.coupling_structure.sequence for group in stage]
+        if got_groups != expected_groups:
+            # the order in which the structures are consumed would not be the one they were built in: unsound case
+            ctx.cls("comp_sequence_not_reproducible_case_skipped")
+            return
     mda.scaling = mda.ResidualScaling.NO_SCALING
     node_of = {id(d): i for i, d in enumerate(discs)}
     if wrapped:
@@ -456,6 +484,10 @@ def case_composition(p, ctx):
         ctx.cls("comp_duplicated_names")
     if wrapped:
         ctx.cls("comp_cycle_group_wrapped_in_one_MDOChain_node")
+    if extra:
+        ctx.cls("comp_sub_coupling_structures_given")
+        if len(set(mda_levels)) >= 2:
+            ctx.cls("comp_sub_coupling_structures_with_inner_MDAs_in_>=2_levels")
     if any(real.producer.get(name) not in (None, j) for j, name in real.optional):
         ctx.cls("comp_edge_through_optional_input")
     if order != sorted(order):
